@@ -122,6 +122,18 @@ def case(rng: Any, ctx: Ctx, index: int) -> None:
             continue
         x = gen.rand_input(rng, s)
         op.mv(x)                                          # monitored by the reference-model monitor
+        op(x)                                             # monitored: op(x) is op.mv(x)
+        if rng.integers(4) == 0:
+            # values of a wider dtype than the leaves (complex on real data, float64 on float32 with 64-bit mode on)
+            wide = values.astype(jnp.complex64) * (1 + 0.5j) if rng.integers(2) or not ctx.x64 else values.astype(jnp.float64) / 3
+            try:
+                opw = cls(wide, axis_destination=spec, in_structure=s)
+                opw(x)                                    # monitored: op(x) is op.mv(x), whatever the value dtype
+                LOG.count('C11.wide-values', str(wide.dtype))
+            except ValueError:
+                pass
+        if cls is DiagonalOperator:
+            op.I.mv(x)                                    # monitored (reciprocal-or-zero values model)
         LOG.evaluated('C11.out_structure')
         got = [tuple(l.shape) for l in dense.leaves(op.out_structure())]
         if got != [tuple(o) for o in outs]:
@@ -134,8 +146,6 @@ def case(rng: Any, ctx: Ctx, index: int) -> None:
                 LOG.evaluated('C11.as_matrix')
                 if m.shape != (diag.size, diag.size) or not np.allclose(m, np.diag(diag)):
                     LOG.violation('C11', 'C11.as_matrix', f'DiagonalOperator.as_matrix/{form}', 'not the diagonal of the broadcast values', spec=repr(spec), values=list(vshape))
-                inv = op.I
-                y = inv.mv(x)                              # monitored (pseudo-inverse values model)
             guarded('C11.as_matrix', j)
     LOG.sample({'form': form, 'spec': repr(spec), 'values': list(vshape), 'leaves': [list(x) for x in shapes], 'reference': outcome})
 
@@ -166,6 +176,8 @@ def case_reject(rng: Any, ctx: Ctx, index: int) -> None:
 
 
 def run(ctx: Ctx) -> None:
+    from .. import monitors
+    monitors._call_prop.value = 'C11'
     enable('mvref')
     drive(ctx, case_reject, 100, 400, stream=1, part='diag')   # small fixed-count part first (never starved by the time cap)
     drive(ctx, case, 4000, 40000, stream=0, part='diag')
